@@ -933,7 +933,7 @@ impl Write for VirtualSystem {
                     Err(Errno::EINTR)
                 })
             };
-            poll_fn(|context| {
+            let result = poll_fn(|context| {
                 if system.current_process().caught_signals_count != initial_signal_count {
                     return interrupted(bytes_written);
                 }
@@ -951,7 +951,14 @@ impl Write for VirtualSystem {
                 }
                 result
             })
-            .await
+            .await;
+            if result == Err(Errno::EPIPE) {
+                // Writing to a pipe that has no reader sends SIGPIPE to the
+                // writing process. This does not return if the signal
+                // terminates the process.
+                system.raise(signal::SIGPIPE).await.ok();
+            }
+            result
         }
     }
 }
@@ -2020,6 +2027,42 @@ mod tests {
         let read_fut = pin!(system.read(reader, &mut buffer));
         // Data is immediately available; should NOT return EINTR
         assert_eq!(read_fut.poll(&mut context), Ready(Ok(3)));
+    }
+
+    #[test]
+    fn write_to_pipe_without_reader_raises_sigpipe() {
+        // With SIGPIPE ignored, the write fails with EPIPE.
+        let system = VirtualSystem::new();
+        system.sigaction(SIGPIPE, Disposition::Ignore).unwrap();
+        let (reader, writer) = system.pipe().unwrap();
+        system.close(reader).unwrap();
+        let result = system.write(writer, &[1]).now_or_never().unwrap();
+        assert_eq!(result, Err(Errno::EPIPE));
+        assert_eq!(system.current_process().state(), ProcessState::Running);
+
+        // With SIGPIPE caught, the signal is delivered and the write fails.
+        let system = VirtualSystem::new();
+        system.sigaction(SIGPIPE, Disposition::Catch).unwrap();
+        let (reader, writer) = system.pipe().unwrap();
+        system.close(reader).unwrap();
+        let result = system.write(writer, &[1]).now_or_never().unwrap();
+        assert_eq!(result, Err(Errno::EPIPE));
+        assert_eq!(system.caught_signals(), [SIGPIPE]);
+
+        // With the default disposition, the process is killed by SIGPIPE and
+        // the write never returns.
+        let system = VirtualSystem::new();
+        let (reader, writer) = system.pipe().unwrap();
+        system.close(reader).unwrap();
+        let result = system.write(writer, &[1]).now_or_never();
+        assert_eq!(result, None);
+        assert_eq!(
+            system.current_process().state(),
+            ProcessState::Halted(ProcessResult::Signaled {
+                signal: SIGPIPE,
+                core_dump: false
+            })
+        );
     }
 
     #[test]
